@@ -190,8 +190,12 @@ def check(an, rep, tier):
             for j, rv in enumerate(r.returns):
                 if rv.k != 'list' or not rv.items:
                     continue
-                degs = [(c.deg or {}).get('c', Fraction(0)) if c.deg is not None
-                        else Fraction(0) for c in rv.items]
+                if any(c.degq or c.deg_alt for c in rv.items):
+                    rep.unknown('U-deg', q, 'degree of the number operand '
+                                'over the cores, %s' % r.tag(),
+                                'degree of a core not established')
+                    continue
+                degs = [(c.deg or {}).get('c', Fraction(0)) for c in rv.items]
                 tot = sum(degs)
                 rep.add('U-deg', q, 'degree of the number operand over the '
                         'cores, %s' % r.tag(),
@@ -210,6 +214,11 @@ def check(an, rep, tier):
         run = an.run('tensors.const', 0, d)
         for j, rv in enumerate(run.returns):
             if rv.k != 'list':
+                continue
+            if any(c.degq or c.deg_alt for c in rv.items):
+                rep.unknown('U-deg', 'tensors.const', 'degree of v over the '
+                            'cores, return path %d at d=%d' % (j, d),
+                            'degree of a core not established')
                 continue
             degs = [(c.deg or {}).get('v', Fraction(0)) for c in rv.items]
             tot = sum(degs)
